@@ -46,19 +46,18 @@ Proof.
 Qed.
 
 Lemma class_loop_comments d ps pd nm fs ms acc L : forall doc F rest',
-  (forall l, In l L -> sp_only l = true) -> (length (c_elines d L ++ rest') < F)%nat ->
+  (length (c_elines d L ++ rest') < F)%nat ->
   exists F', (length rest' < F')%nat /\
     class_loop F d ps pd (mkClass nm doc fs ms) acc (c_elines d L ++ rest')
     = class_loop F' d ps pd (mkClass nm (fold_left ins_doc L doc) fs ms) acc rest'.
 Proof.
-  induction L as [|l L IH]; intros doc F rest' Hsp HF.
+  induction L as [|l L IH]; intros doc F rest' HF.
   - exists F. split; [exact HF|reflexivity].
   - destruct F as [|f]; [lia|]. cbn [c_elines map app]. rewrite class_loop_step.
     cbn [el_ind el_first]. rewrite Nat.compare_refl. cbv zeta. rewrite tag_C_CLASS, tag_C_FIELD, tag_C_METHOD, tag_CC.
     unfold set_cdoc. cbn [c_names c_doc c_fields c_methods].
-    rewrite ins_comment_doc, (join_split_ws l) by (apply Hsp; left; reflexivity).
+    rewrite ins_comment_doc.
     destruct (IH (ins_doc doc l) f rest') as (F' & HF' & E).
-    { intros x Hx. apply Hsp. right. exact Hx. }
     { cbn [c_elines map app length] in HF. fold (c_elines d L) in HF. lia. }
     exists F'. split; [exact HF'|]. exact E.
 Qed.
@@ -115,7 +114,7 @@ Proof.
     rewrite has_field_false.
     2:{ rewrite map_app in Hnd. cbn [map] in Hnd. apply NoDup_remove_2 in Hnd. intros Hin. apply Hnd.
         apply in_or_app. left. exact Hin. }
-    rewrite <- app_assoc. rewrite comments_loop_doc; [|exact Hf0|].
+    rewrite <- app_assoc. rewrite comments_loop_doc.
     2:{ apply stops_flat_map; [|exact Hr]. intros x _. destruct (e_field_head d x) as (tl & ->).
         eexists; eexists; split; [reflexivity|cbn [el_ind]; lia]. }
     cbn [bind fst snd]. unfold add_field. cbn [c_names c_doc c_fields c_methods].
@@ -203,7 +202,7 @@ Proof.
   { destruct (c_doc c) as [s|] eqn:Edoc.
     - destruct (class_loop_comments (S d) ps pd [Some (cls_key c); cls_dst c] [] [] acc (split_on cLF s) None F
                  (flat_map (e_field (S d)) (isort field_wleb (c_fields c)) ++ flat_map (e_meth (S d)) (isort meth_wleb (c_methods c)) ++ rest'))
-        as (F1 & HF1 & E1); [eapply doc_lines_sp; [exact H4|reflexivity]|exact HF|].
+        as (F1 & HF1 & E1); [exact HF|].
       exists F1. split; [exact HF1|]. rewrite E1, fold_ins_doc_split. reflexivity.
     - exists F. split; [exact HF|reflexivity]. }
   destruct Hdoc as (F1 & HF1 & E1). rewrite E1.
